@@ -530,8 +530,9 @@ class ABCPropertyGraph(ABCPropertyGraphConstants):
             prop_dict[ABCPropertyGraph.PROP_DETAILS] = sliver.details
         if hasattr(sliver, 'node_map') and sliver.node_map is not None:
             prop_dict[ABCPropertyGraph.PROP_NODE_MAP] = json.dumps(sliver.node_map)
-        if hasattr(sliver, 'stitch_node'):
-            # boolean is always there. use json dumps for simplicity
+        if hasattr(sliver, 'stitch_node') and sliver.stitch_node is not None:
+            # written only when set (a sliver built to set some other property must not reset it);
+            # use json dumps for simplicity
             prop_dict[ABCPropertyGraph.PROP_STITCH_NODE] = json.dumps(sliver.stitch_node)
         # this is already a JSON dict
         if hasattr(sliver, 'mf_data') and sliver.mf_data is not None:
